@@ -567,11 +567,14 @@ func conc(h *head) []byte {
 	type sub struct {
 		Pkg string
 	}
+	// (a goroutine keeps every DISTINCT result of a sub-request once, with a count — not one string per call: a
+	// result can be megabytes (the observer log of a parse with a few hundred thousand rule entries), and thousands
+	// of calls per batch took a child past its memory cap in a thorough run)
 	type rec struct {
 		i          int
 		start, end time.Duration
-		res        string
 	}
+	distinct := make([][]map[string]int, h.Gor)
 	n := len(h.Conc)
 	subs := make([]sub, n)
 	for i := range subs {
@@ -605,6 +608,7 @@ func conc(h *head) []byte {
 		go func(g int) {
 			defer wg.Done()
 			var mine []rec
+			seen := make([]map[string]int, n)
 			for rep := 0; rep < h.Reps; rep++ {
 				for k := 0; k < n; k++ {
 					i := (k*stride + g*3 + rep) % n
@@ -613,10 +617,15 @@ func conc(h *head) []byte {
 					}
 					st := time.Since(t0)
 					r := call(subs[i].Pkg, h.Conc[i])
-					mine = append(mine, rec{i, st, time.Since(t0), string(r)})
+					mine = append(mine, rec{i, st, time.Since(t0)})
+					if seen[i] == nil {
+						seen[i] = map[string]int{}
+					}
+					seen[i][string(r)]++
 				}
 			}
 			per[g] = mine
+			distinct[g] = seen
 		}(g)
 	}
 	wg.Wait()
@@ -648,9 +657,13 @@ func conc(h *head) []byte {
 	calls := 0
 	for g, mine := range per {
 		for _, r := range mine {
-			results[r.i][r.res]++
 			ivs = append(ivs, iv{r.start, r.end, g})
 			calls++
+		}
+		for i, m := range distinct[g] {
+			for res, cnt := range m {
+				results[i][res] += cnt
+			}
 		}
 	}
 	// number of calls that overlapped in time with a call of another goroutine
